@@ -39,7 +39,8 @@ ASSUMPTIONS = ['no key joins in this check (C11 covers them)', 'oracle only at q
                'adding the same LinkCollection twice raises AttributeError in glue; modelled as a loud rejection']
 PROBES = ['chain_depth_ge_2', 'chain_depth_ge_3', 'cycle_or_diamond_choice', 'link_autoremoved_by_component', 'link_autoremoved_by_dataset',
           'reappend_after_links', 'ops_in_link_delay_window', 'rejected_extend', 'duplicate_link', 'multi_input_reached',
-          'incompatible_checked', 'aligned_link', 'mask_selection_on_linked_dataset', 'component_removed_from_removed_dataset', 'component_removed_from_removed_dataset_in_hub_window']
+          'incompatible_checked', 'aligned_link', 'mask_selection_on_linked_dataset', 'component_removed_from_removed_dataset', 'component_removed_from_removed_dataset_in_hub_window',
+          'two_input_link_across_datasets']
 
 WEIGHTS = {'new': 3, 'append': 4, 'remove': 1.5, 'add_comp': 2, 'add_derived': 2, 'remove_comp': 1.5, 'add_link': 9,
            'add_again': 0.7, 'remove_link': 2.5, 'set_links': 0.7, 'delay_open': 1.5, 'delay_close': 2, 'extend_junk': 0.5,
@@ -71,7 +72,8 @@ def generate(rng, cfg, guards):
             ops.append([k, r8(), r8(), rng.pick([False] * 6 + ['pool', 'last', 'last', 'last'])])
         elif k == 'add_link':
             kind = rng.wpick(KINDS)
-            ops.append([k, kind, r8(), r8(), r8(), r8(), rng.pick(sorted(LF.ONE)), r8(), rng.pick(sorted(LF.TWO))])
+            ops.append([k, kind, r8(), r8(), r8(), r8(), rng.pick(sorted(LF.ONE)), r8(), rng.pick(sorted(LF.TWO)),
+                        rng.pick([None, r8(), r8()]), rng.chance(0.5)])
         elif k in ('add_again', 'remove_link'):
             ops.append([k, r8()])
         elif k == 'set_links':
@@ -251,12 +253,16 @@ def execute(case, res):
                         m.derived[d] = [e for e in m.derived.get(d, []) if not any(e[1] is g for g in gone)]
                         pending.append(('comps', gone))
             elif k == 'add_link':
-                _, kind, h1, c1, h2, c2, f1, c3, f2 = op
+                _, kind, h1, c1, h2, c2, f1, c3, f2 = op[:9]
                 d1, d2 = w.pick_data(h1), w.pick_data(h2)
                 if d1 is None:
                     continue
                 a, b = w.pick_cid(d1, c1, True), w.pick_cid(d2, c2, True)
-                a2 = w.pick_cid(d1, c3, True)
+                # the second input of a two-input link may live in a third dataset
+                d3 = w.pick_data(op[9]) if len(op) > 9 and op[9] is not None else d1
+                a2 = w.pick_cid(d3, c3, True)
+                if d3 is not d1 and kind == 'multi':
+                    res.probe('two_input_link_across_datasets')
                 fw, bw = LF.ONE[f1]
                 if kind == 'oneway':
                     obj = ComponentLink([a], b, using=fw)
@@ -274,7 +280,10 @@ def execute(case, res):
                     obj = LH.LinkTwoWay(a, b, fw, bw)
                     edges = [((a,), b, (f1, False)), ((b,), a, (f1, True))]
                 elif kind == 'multi':
-                    obj = LH.MultiLink([a, a2], [b], forwards=LF.TWO[f2], labels2=['out'])
+                    if len(op) > 10 and op[10]:
+                        obj = ComponentLink([a, a2], b, using=LF.TWO[f2])
+                    else:
+                        obj = LH.MultiLink([a, a2], [b], forwards=LF.TWO[f2], labels2=['out'])
                     edges = [((a, a2), b, f2)]
                 else:
                     try:
